@@ -1,5 +1,6 @@
 import Autog.Model.WMedian
 import Autog.Lemmas.TreePreorderPlanar
+import Autog.Lemmas.TreeInitDfs
 /-! # C13 — rooted trees are drawn without edge crossings
 
     PARTIAL. Three links:
@@ -11,9 +12,17 @@ import Autog.Lemmas.TreePreorderPlanar
         reports 0 (`C13_logs_zero`);
     (c) the counter is exact (C12) and the logged number equals the model's count on the returned order on every traced run
         (`T:crossings`), the positioners keep the order (C12_*_keeps_order).
-    NOT proved: that the DFS initialisation of the model, run on the layered image of a tree, numbers each layer exactly as the
-    pre-order level lists of (a) — decided per run: every generated tree (all edge orders, both directions, both layerers, all
-    size-aware positioners) must come back with 0 logged and 0 recounted crossings. -/
+    (d) the bridge from the model to (a), for ALL trees (`C13_initPositions_preorder`, `C13_initPositions_no_crossing`): on every
+        graph state that represents a rooted tree (`TreeRep`: out-lists = children in order, root alone in the first layer list,
+        layer = depth, every node a tree node) the model's `initPositions` (the exact model of `initPositionsFromTop`) returns — the
+        machine works through a subtree in exactly 2·size steps — and gives every node its index in the pre-order level list of its
+        depth; hence, listing the tree edges between two consecutive depths parent by parent, parent positions never decrease and
+        child positions strictly increase: no two of them cross.
+    NOT proved: that the model's bilayer extraction (`countCrossings`, which collects the incident edges of the larger layer and
+    feeds their position pairs to the verified counter) sees exactly these edge lists, i.e. the step from (d) to the hypothesis
+    `crossingsAll g1 = 0` of (b); that phases 1–2 and `breakLongEdges` turn a tree input into a `TreeRep` state; and the mirror
+    image for in-trees (run from the bottom). These are decided per run: every generated tree (all edge orders, both directions,
+    both layerers, all size-aware positioners) must come back with 0 logged and 0 recounted crossings. -/
 
 namespace Autog
 
@@ -39,5 +48,32 @@ theorem C13_logs_zero (maxiter : Nat) (g g1 g2 : G) (xt xb : Nat) (pt pb : Array
     · have : xb = 0 := by omega
       subst this; simp
   · simp
+
+/-! ## (d) the DFS initialisation of a tree state is the pre-order numbering -/
+
+theorem C13_initPositions_preorder : type_of% @TreeInitDfs.initPositions_tree := @TreeInitDfs.initPositions_tree
+theorem C13_initPositions_no_crossing : type_of% @TreeInitDfs.initPositions_tree_no_crossing := @TreeInitDfs.initPositions_tree_no_crossing
+theorem C13_subtree_in_preorder : type_of% @TreeInitDfs.run_tree := @TreeInitDfs.run_tree
+theorem C13_preorder_levels : type_of% @TreeInitDfs.pre_lvl := @TreeInitDfs.pre_lvl
+
+/-- non-vacuity: a state that represents the tree 0(1(3,4),2(5)), with its edge list in a scrambled order -/
+def exTreeG : G :=
+  { nodes := #[{ id := "r", outs := [3, 0], layer := 0 }, { id := "a", ins := [3], outs := [4, 1], layer := 1 },
+               { id := "b", ins := [0], outs := [2], layer := 1 }, { id := "c", ins := [4], layer := 2 },
+               { id := "d", ins := [1], layer := 2 }, { id := "e", ins := [2], layer := 2 }],
+    edges := #[{ src := 0, dst := 2 }, { src := 1, dst := 4 }, { src := 2, dst := 5 }, { src := 0, dst := 1 }, { src := 1, dst := 3 }],
+    elist := [0, 1, 2, 3, 4],
+    layers := #[{ index := 0, nodes := [0] }, { index := 1, nodes := [2, 1] }, { index := 2, nodes := [5, 3, 4] }] }
+
+example : TreeInitDfs.TreeRep exTreeG TreePreorderPlanar.ex 0 :=
+  { kids := by simp [TreeInitDfs.KidsOK, TreeInitDfs.KidsOKs, TreePreorderPlanar.ex]; decide
+    nd := by decide
+    first := by decide
+    span := by decide
+    bound := by decide
+    size := by decide
+    lay := by decide }
+
+example : ((initPositions true exTreeG).toOption.map fun g => g.nodes.toList.map (·.pos)) = some [0, 0, 1, 0, 1, 2] := by decide +kernel
 
 end Autog
